@@ -123,7 +123,17 @@ func concOp(kind int, seed int64) string {
 		if rr.Intn(2) == 0 { // the coding the message arrived in, usually not among the candidates
 			b.OriginDataCoding(toPDC(proto, batchValid[proto][rr.Intn(len(batchValid[proto]))]))
 		}
-		parts, a, err := b.Build(context.Background())
+		// the caller's context may be over already, or end while Build runs: Build answers all the same
+		ctx, cancel := context.Background(), func() {}
+		switch rr.Intn(4) {
+		case 1:
+			ctx, cancel = context.WithCancel(ctx)
+			cancel()
+		case 2:
+			ctx, cancel = context.WithTimeout(ctx, time.Duration(1+rr.Intn(200))*time.Microsecond)
+		}
+		parts, a, err := b.Build(ctx)
+		cancel()
 		return fmt.Sprint(parts, a, err != nil)
 	case 5:
 		return cmpp.Utf8ToUcs2Pooled(randText(rr, rr.Intn(300)))
